@@ -412,8 +412,13 @@ def resize_image_to_macro_block(
 
 
 def _load_images(frames_dir: str) -> list:
+    # Frame numbers are only zero-padded to two digits ("frame_07.png",
+    # "frame_100.png"), so the names are sorted by length first to get the
+    # numeric order; a plain lexicographic sort puts frame 100 before 11.
     frames = [
         os.path.join(frames_dir, frame)
-        for frame in sorted(os.listdir(frames_dir))
+        for frame in sorted(
+            os.listdir(frames_dir), key=lambda name: (len(name), name)
+        )
     ]
     return [imageio.imread(frame) for frame in frames]
